@@ -281,8 +281,8 @@ class WriteRun(object):
         data = self.fs.files.get(self.target)
         return None if data is None else bytes(data)
 
-    def write_row(self, row):
-        status, value = call(self.writer.write_row, list(row))
+    def write_row(self, row, copy=True):
+        status, value = call(self.writer.write_row, list(row) if copy else row)
         self.results.append("ok" if status == "ok" else value)
         if self.stream is not None:
             self.snapshots.append(self.stream.getvalue())
